@@ -12,6 +12,9 @@ CLAIMED = {
  "C09": ("fault_enumeration", "4.6", "per seeded scenario (generated repository x one of 24 repository-changing operations) every boundary before a mutating system call is enumerated as a crash point; the disk image of a process crash (and, with core.fsyncObjectFiles, of a power loss with un-fsynced data lost/torn/zeroed) is materialised and opened by a fresh Repo; refs must be old-or-new and name intact complete objects, everything reachable before must be intact, nothing visible may fail its hash, index/config old-or-new, a follow-up operation must work",
          "crash points exhaustive within a scenario, scenarios sampled; metadata operations assumed ordered and durable (ext4-ordered-like); directory fsync not modelled",
          "deterministic simulation: syscall journal over simfs, exhaustive crash-point enumeration per scenario with process-crash and power-loss disk models, recovery oracle against an object/ref model"),
+ "C10": ("exploration", "4.7", "(a) seeded build/maintenance histories on a virtual clock (loose objects, packs, duplicates, refs moved/deleted, detached HEAD, tags, alternates, clock advances and skews; pack_loose/repack/gc/prune with grace 0/None/default, midx, commit-graph) checked after every maintenance step against an object/ref model incl. the grace-period bound; (b) maintenance actor against 1-2 long-lived reader actors interleaved at syscall granularity with optional injected errors, every lookup/iteration of a reachable id must succeed",
+         "refs fixed while readers run; 'young' = first added less than grace ago on the virtual clock (sound lower bound); schedules sampled",
+         "deterministic simulation: virtual clock + simfs histories against a reference model; baton-passing reader/maintainer actors under seeded schedules with fault injection"),
 }
 NA = {
  "C01": "pure function of object field values / setter order: no schedule, clock, fault or I/O seam for a simulator to own (DESIGN.md section 5)",
